@@ -14,6 +14,7 @@ from unittest.mock import MagicMock
 from harness.common import leanproc
 from harness.common.shrink import ddmin
 from harness.common.vmachine import VMachine, BootError
+from harness.common.pool_c20c11 import CaseTimeout, watchdog
 
 ID = "C20"
 LEAN_MODULES = ["MpfVerif.Props.C20"]
@@ -270,6 +271,8 @@ class Run:
             for _ in range(8):      # the game-start / ball-end flows need a few loop iterations, no time
                 vm.run()
             return None
+        except CaseTimeout:
+            raise
         except BaseException as e:
             return "crash:" + type(e).__name__
 
@@ -277,6 +280,8 @@ class Run:
         try:
             self.vm.advance(op[1] if op[0] == "adv" else 1)
             return None
+        except CaseTimeout:
+            raise
         except BaseException as e:
             return "crash:" + type(e).__name__
 
@@ -479,6 +484,18 @@ def ball_of(run):
 
 
 def execute(cfg, ops, model):
+    """one case under a wall-clock watchdog: a case can fail, it can never hang"""
+    try:
+        with watchdog(30):
+            return execute_unguarded(cfg, ops, model)
+    except CaseTimeout as e:
+        if model is not None:
+            model.p.kill()
+        return [("hang", {"error": str(e), "ops": len(ops)})], [], {"accepted_coins": 0, "starts": 0, "added": 0,
+                                                                   "capped": 0, "expired": 0, "hangs": 1}
+
+
+def execute_unguarded(cfg, ops, model):
     """-> (oracle failures [(sig, detail)], comparisons [(what, impl, model)], stats)"""
     run = Run(cfg)
     run.start()
@@ -571,7 +588,7 @@ def run_case(ctx, cfg, ops, model, sample=True):
             except BootError:
                 return False
             return any(s == sig for s, _ in b)
-        small = ddmin(ops, fails, max_tests=120)
+        small = ops if sig == "hang" else ddmin(ops, fails, max_tests=120)
         try:
             b2, _, _ = execute(cfg, small, None)
         except BootError:
@@ -592,7 +609,7 @@ def run_range(ctx, lo, hi):
             run_case(ctx, cfg, gen_ops(r, cfg), model)
             if i % 25 == 24:
                 gc.collect()        # stopped machines are cyclic garbage
-            if len(ctx.failures) >= 3 or ctx.hist.get("further_failing_cases", 0) >= 20:
+            if len(ctx.failures) >= 3 or ctx.hist.get("further_failing_cases", 0) >= 20 or ctx.hist.get("hangs"):
                 break       # the verdict is settled; do not burn the budget on more witnesses
     finally:
         if model is not None:
